@@ -30,6 +30,8 @@ inductive AOp where
   | fromWord (k w : Nat)
   | fromDword (k lo hi : Nat)
   | intoTyped (k : Nat)
+  | intoSignTyped (k : Nat)
+  | withSign (k : Nat) (neg : Bool)
   | drop (k : Nat)
   deriving DecidableEq, Repr
 
@@ -50,6 +52,8 @@ def AOp.toOp : AOp → Op
   | .fromWord k w => .fromWord k w
   | .fromDword k lo hi => .fromDword k lo hi
   | .intoTyped k => .intoTyped k
+  | .intoSignTyped k => .intoSignTyped k
+  | .withSign k neg => .withSign k neg
   | .drop k => .drop k
 
 /-- how a public operation ends: storage calls, an optional documented panic after them, and the
@@ -233,15 +237,25 @@ def fragMul (sqrSimple : Nat) (f : Form) (a b : List Nat) : Frag :=
   { fr with ops := pre ++ fr.ops }
 
 /-- `div_rem_in_lhs` + tail of `div_large` / `rem_large` on `lhs` in register `lr`, `rhs` in register `rr`
-    (both ≥ 3 words, `la ≥ lb`; sizes without scratch block: `lb ≤ 32` or `la - lb ≤ 32`) -/
+    (both ≥ 3 words, `la ≥ lb`).  `div::memory_requirement_exact`: no scratch block when
+    `rhs_len ≤ THRESHOLD_SIMPLE` or `lhs_len - rhs_len ≤ THRESHOLD_SIMPLE`, otherwise the divide-and-conquer
+    requirement `mul::memory_requirement_up_to(_, min(rhs_len/2, lhs_len - rhs_len))`; the block lives for the
+    duration of `div_rem_in_lhs` (allocated first, freed after `push_resizing(quo_carry)`) -/
+def divScratchWords (la lb : Nat) : Nat :=
+  if lb ≤ Dashu.Gen.div_THRESHOLD_SIMPLE ∨ la - lb ≤ Dashu.Gen.div_THRESHOLD_SIMPLE then 0
+  else mulScratchWords (min (lb / 2) (la - lb))
+
 def fDivRemLarge (wantRem : Bool) (lr rr la lb va vb : Nat) : Frag :=
   let q := va / vb
   let rm := va % vb
   let shift := W * lb - (Nat.log2 vb + 1)
+  let scratch := divScratchWords la lb
   let common : List AOp :=
+    (if scratch > 0 then [.allocScratch 4 scratch] else []) ++
     [.overwrite rr (toWords W lb (vb * 2 ^ shift)),                                   -- `div::normalize(rhs)`
      .overwrite lr (toWords W lb (rm * 2 ^ shift) ++ toWords W (la - lb) q),          -- `[lhs % rhs, lhs / rhs]`
-     .pushResizing lr (q / 2 ^ (W * (la - lb)))]                                      -- `push_resizing(quo_carry)`
+     .pushResizing lr (q / 2 ^ (W * (la - lb)))] ++                                   -- `push_resizing(quo_carry)`
+    (if scratch > 0 then [.drop 4] else [])
   if wantRem then
     { ops := common ++ [.overwrite rr (toWords W lb rm), .fromBuffer rr], cleanup := [.drop lr], res := rr }
   else
@@ -291,6 +305,108 @@ def fragDivRem (wantRem : Bool) (f : Form) (a b : List Nat) : Frag :=
       let fr := fDivRemLarge W wantRem lr rr la lb va vb
       { fr with ops := cp ++ fr.ops }
   { fr with ops := pre ++ fr.ops }
+
+/-- `repr_signed::sub_large(lhs buffer in register r, rhs = words of register o)`: never panics -/
+def fSubLargeSigned (r lr vr o lo vo : Nat) : List AOp :=
+  if lr ≥ lo then [.overwrite r (toWords W lr (if vr ≥ vo then vr - vo else vo - vr)), .fromBuffer r]
+  else
+    -- `sub_large_ref_val(rhs, lhs)`: the result is built in the (shorter) lhs buffer
+    [.ensureCapacity r lo, .pushTailFrom r o lr, .overwrite r (toWords W lo (vo - vr)), .fromBuffer r]
+
+/-- `SubSigned` for `TypedRepr(Ref)`: the magnitude part of `|a| - |b|` (add_ops.rs `mod repr_signed`);
+    operands are ALREADY typed (signs stripped by `into_sign_typed` / `as_sign_typed`) -/
+def fragSubSigned (aVal bVal : Bool) (a b : List Nat) : Frag :=
+  let la := a.length; let lb := b.length; let va := wval W a; let vb := wval W b
+  let d := if va ≥ vb then va - vb else vb - va
+  if isSmall a && isSmall b then { ops := [.fromDword 2 (d % 2 ^ W) (d / 2 ^ W)] }
+  else if isSmall a then
+    if bVal then { ops := [.overwrite 1 (toWords W lb d), .fromBuffer 1], res := 1 }
+    else { ops := [.bufFromView 2 1, .overwrite 2 (toWords W lb d), .fromBuffer 2] }
+  else if isSmall b then
+    if aVal then { ops := [.overwrite 0 (toWords W la d), .fromBuffer 0], res := 0 }
+    else { ops := [.bufFromView 2 0, .overwrite 2 (toWords W la d), .fromBuffer 2] }
+  else
+    match aVal, bVal with
+    | false, false =>
+      if la ≥ lb then { ops := [.bufFromView 2 0] ++ fSubLargeSigned W 2 la va 1 lb vb }
+      else { ops := [.bufFromView 2 1] ++ fSubLargeSigned W 2 lb vb 0 la va }
+    | false, true => { ops := fSubLargeSigned W 1 lb vb 0 la va, res := 1 }
+    | true, false => { ops := fSubLargeSigned W 0 la va 1 lb vb, res := 0 }
+    | true, true =>
+      if la ≥ lb then { ops := fSubLargeSigned W 0 la va 1 lb vb, cleanup := [.drop 1], res := 0 }
+      else { ops := fSubLargeSigned W 1 lb vb 0 la va, cleanup := [.drop 0], res := 1 }
+
+/-- swap the roles of registers 0 and 1 in a skeleton (the glue calls `mag1.sub_signed(mag0)`) -/
+def AOp.swap01 : AOp → AOp :=
+  let sw (k : Nat) : Nat := if k = 0 then 1 else if k = 1 then 0 else k
+  fun
+  | .allocate k n => .allocate (sw k) n
+  | .allocScratch k w => .allocScratch (sw k) w
+  | .push k w => .push (sw k) w
+  | .pushResizing k w => .pushResizing (sw k) w
+  | .pushZeros k n => .pushZeros (sw k) n
+  | .pushZerosFront k n => .pushZerosFront (sw k) n
+  | .ensureCapacity k n => .ensureCapacity (sw k) n
+  | .pushTailFrom k j lo => .pushTailFrom (sw k) (sw j) lo
+  | .bufFromView k j => .bufFromView (sw k) (sw j)
+  | .cloneFromSliceFrom k j => .cloneFromSliceFrom (sw k) (sw j)
+  | .overwrite k ws => .overwrite (sw k) ws
+  | .eraseFront k n => .eraseFront (sw k) n
+  | .fromBuffer k => .fromBuffer (sw k)
+  | .fromWord k w => .fromWord (sw k) w
+  | .fromDword k lo hi => .fromDword (sw k) lo hi
+  | .intoTyped k => .intoTyped (sw k)
+  | .intoSignTyped k => .intoSignTyped (sw k)
+  | .withSign k n => .withSign (sw k) n
+  | .drop k => .drop (sw k)
+
+def Frag.swap01 (f : Frag) : Frag :=
+  { ops := f.ops.map AOp.swap01, panic := f.panic, cleanup := f.cleanup.map AOp.swap01,
+    res := if f.res = 0 then 1 else if f.res = 1 then 0 else f.res }
+
+/-- strip `intoTyped` (the signed glue uses `into_sign_typed` instead) -/
+def Frag.noIntoTyped (f : Frag) : Frag :=
+  { f with ops := f.ops.filter fun o => match o with | .intoTyped _ => false | _ => true }
+
+/-- `IBig ± IBig` / `IBig * IBig` (`impl_ibig_add`, `impl_ibig_sub`, `impl_ibig_mul`): `into_sign_typed` /
+    `as_sign_typed` on the operands (no allocator event), the magnitude operation selected by the signs,
+    `with_sign` on the result.  `op` = 0 add, 1 sub, 2 mul; `na`, `nb` = operand is negative. -/
+def fragSigned (sqrSimple : Nat) (op : Nat) (f : Form) (na : Bool) (a : List Nat) (nb : Bool) (b : List Nat) : Frag :=
+  let aVal := f == .vr || f == .vv
+  let bVal := f == .rv || f == .vv
+  let pre : List AOp := (if aVal then [.intoSignTyped 0] else []) ++ (if bVal then [.intoSignTyped 1] else [])
+  let va := wval W a; let vb := wval W b
+  -- for subtraction the right operand's sign is flipped
+  let nb' := if op = 1 then !nb else nb
+  let body : Frag × Bool :=
+    if op = 2 then ((fragMul W sqrSimple f a b).noIntoTyped, na != nb)
+    else if na = nb' then ((fragAdd W f a b).noIntoTyped, na)
+    else if !na then (fragSubSigned W aVal bVal a b, decide (va < vb))        -- mag0.sub_signed(mag1)
+    else ((fragSubSigned W bVal aVal b a).swap01, decide (vb < va))          -- mag1.sub_signed(mag0)
+  let fr := body.1
+  { fr with ops := pre ++ fr.ops ++ [.withSign fr.res body.2] }
+
+/-- `UBig::sqr(&self)` (mul_ops.rs `TypedReprRef::sqr`, `square_dword_spilled`, `square_large`) -/
+def fragSqr (sqrSimple : Nat) (a : List Nat) : Frag :=
+  let la := a.length; let va := wval W a
+  if isSmall a then
+    if va < 2 ^ W then { ops := [.fromDword 2 ((va * va) % 2 ^ W) ((va * va) / 2 ^ W)] }
+    else { ops := [.allocate 2 4] ++ (toWords W 4 (va * va)).map (AOp.push 2) ++ [.fromBuffer 2] }
+  else
+    let n := 2 * la
+    let scratch := sqrScratchWords sqrSimple la
+    { ops := [.allocate 2 n, .pushZeros 2 n] ++ (if scratch > 0 then [.allocScratch 3 scratch] else []) ++
+             [.overwrite 2 (toWords W n (va * va)), .fromBuffer 2] ++ (if scratch > 0 then [.drop 3] else []) }
+
+/-- `UBig::from_le_bytes` / `from_be_bytes` (convert.rs `Repr::from_le_bytes(_large)`): ≤ 2 words of bytes
+    go through `from_dword`; otherwise `Buffer::allocate(ceil(len / WORD_BYTES))`, one `push` per word
+    (high zero bytes give high zero words), `from_buffer` -/
+def fragFromBytes (nbytes v : Nat) : Frag :=
+  let wb := W / 8
+  if nbytes ≤ 2 * wb then { ops := [.fromDword 2 (v % 2 ^ W) (v / 2 ^ W % 2 ^ W)] }
+  else
+    let nw := (nbytes - 1) / wb + 1
+    { ops := [.allocate 2 nw] ++ (toWords W nw v).map (AOp.push 2) ++ [.fromBuffer 2] }
 
 /-- `UBig << n` (`by value` = `f = vv`, by reference = `f = rr`) -/
 def fragShl (byVal : Bool) (a : List Nat) (rhs : Nat) : Frag :=
